@@ -77,6 +77,50 @@ class Analysis:
                     unres += 1
         return res, unres
 
+    # -------------------------------------------------------------- expansion of single-definition locals
+    def expand(self, expr: ast.AST, fn: FuncInfo, depth: int = 3, keep: ty.Iterable[str] = ()) -> ast.AST:
+        """a copy of `expr` in which every local that is bound exactly once in `fn` (plain assignment or
+        walrus to a bare name; not a loop target, not augmented) is replaced by the expression bound to it,
+        recursively.  Rules that recognise an expression by its shape use this so that introducing or
+        removing an intermediate local does not change what they see."""
+        import copy as _copy
+
+        defs: dict[str, list[ast.AST]] = {}
+        multi: set[str] = set()
+        for n in walk_own(fn.node):
+            if isinstance(n, ast.Assign) and len(n.targets) == 1 and isinstance(n.targets[0], ast.Name):
+                defs.setdefault(n.targets[0].id, []).append(n.value)
+            elif isinstance(n, ast.NamedExpr) and isinstance(n.target, ast.Name):
+                defs.setdefault(n.target.id, []).append(n.value)
+            elif isinstance(n, (ast.AugAssign, ast.AnnAssign)) and isinstance(n.target, ast.Name):
+                multi.add(n.target.id)
+            elif isinstance(n, (ast.For, ast.AsyncFor, ast.comprehension)):
+                for k in ast.walk(n.target):
+                    if isinstance(k, ast.Name):
+                        multi.add(k.id)
+            elif isinstance(n, ast.Assign):
+                for t in n.targets:
+                    for k in ast.walk(t):
+                        if isinstance(k, ast.Name) and isinstance(k.ctx, ast.Store):
+                            multi.add(k.id)
+        params = {a.arg for a in fn.params()}
+        single = {k: v[0] for k, v in defs.items() if len(v) == 1 and k not in multi and k not in params and k not in set(keep)}
+
+        class Sub(ast.NodeTransformer):
+            def __init__(self, d):
+                self.d = d
+
+            def visit_Name(self, node):
+                if isinstance(node.ctx, ast.Load) and node.id in single and self.d > 0:
+                    return Sub(self.d - 1).visit(_copy.deepcopy(single[node.id]))
+                return node
+
+            def visit_NamedExpr(self, node):
+                # (x := e) reads as e
+                return self.visit(_copy.deepcopy(node.value))
+
+        return Sub(depth).visit(_copy.deepcopy(expr))
+
     # -------------------------------------------------------------- single-use iterators
     ITER_BUILTINS = ("map", "filter", "zip", "iter", "reversed", "enumerate")
 
